@@ -112,6 +112,8 @@ type Unit struct {
 	rawSorts     map[string]Sort
 	freeVarPtrs  map[string]freeVarInfo
 	axiomsUsed   []string
+	fvCall       map[string]freeVarInfo
+	divs         []divRec
 	specFnsDone  map[string]bool
 	pkg        *packages.Package
 	errs       []string
@@ -582,6 +584,7 @@ func (u *Unit) mergeStates(ins []incoming) *State {
 	}
 	if sameEpoch {
 		out.epoch = ins[0].st.epoch
+		out.links = append([]epochLink(nil), ins[0].st.links...)
 	} else {
 		u.ctx.n++
 		out.epoch = u.ctx.n
@@ -667,6 +670,10 @@ func (u *Unit) enterLoop(fr *Frame, li *loopInfo, st *State) {
 			_ = old
 			t := a.Type().(*types.Pointer).Elem()
 			st.cells[a] = u.freshVal(st, t, "loop_"+a.Comment)
+			if a.Comment == "rangeindex" {
+				// written only by the range lowering: starts at -1 and is incremented
+				u.assume(st, Ge(st.cells[a].(*Term), IntLit(-1)))
+			}
 		}
 	}
 	li.frame = nil
@@ -748,6 +755,14 @@ func (u *Unit) entryFor(fr *Frame) *State {
 
 func (u *Unit) havocItems(st *State, items []frameItem) {
 	for _, it := range items {
+		if it.Map == "*allocated*" {
+			u.havocAllocated(st)
+			continue
+		}
+		if it.Map == "map" {
+			u.havocGoMap(st, it.Ptr)
+			continue
+		}
 		m := u.heapGet(st, it.Map, it.Elem)
 		switch {
 		case it.Ptr == nil:
@@ -763,6 +778,35 @@ func (u *Unit) havocItems(st *State, items []frameItem) {
 	}
 }
 
+// havocAllocated: every heap map gets a new version that agrees with the old
+// one on all objects that existed when the unit was entered.
+func (u *Unit) havocAllocated(st *State) {
+	since := u.entry.now
+	u.ctx.n++
+	st.links = append(st.links, epochLink{from: st.epoch, to: u.ctx.n, since: since})
+	st.epoch = u.ctx.n
+	for _, name := range sortedKeys(st.heap) {
+		old := st.heap[name]
+		u.ctx.n++
+		nw := u.ctx.Const(fmt.Sprintf("%s@a%d", name, u.ctx.n), old.Sort)
+		r := &Term{"r!q", SRef}
+		u.assume(st, Forall([]Binder{{"r!q", SRef}}, Implies(Lt(App(SInt, "birth", r), since), Eq(Select(nw, r), Select(old, r))), Select(nw, r)))
+		st.heap[name] = nw
+	}
+}
+
+// havocGoMap: the contents of one Go map object become unknown.
+func (u *Unit) havocGoMap(st *State, m *Term) {
+	for _, name := range sortedKeys(st.heap) {
+		if !(strings.HasPrefix(name, "MD!") || strings.HasPrefix(name, "MV!") || strings.HasPrefix(name, "ML!")) {
+			continue
+		}
+		old := st.heap[name]
+		fresh := u.ctx.FreshConst("havoc_map", old.Sort.ElemOfArr())
+		st.heap[name] = u.ctx.Define(name, Store(old, m, fresh))
+	}
+}
+
 // checkWrite: frame obligations for a store to (Map, p).
 func (u *Unit) checkWrite(st *State, mapName string, p *Term, pos token.Pos, what string) {
 	for _, fs := range u.frames {
@@ -772,6 +816,10 @@ func (u *Unit) checkWrite(st *State, mapName string, p *Term, pos token.Pos, wha
 		var alts []*Term
 		alts = append(alts, Ge(App(SInt, "birth", parr(p)), fs.since))
 		for _, it := range fs.items {
+			if it.Map == "*allocated*" {
+				alts = append(alts, Ge(App(SInt, "birth", parr(p)), u.entry.now))
+				continue
+			}
 			if it.Map != mapName {
 				continue
 			}
@@ -804,6 +852,10 @@ func (u *Unit) checkCallFrame(st *State, items []frameItem, all bool, pos token.
 				alts = append(alts, Ge(App(SInt, "birth", parr(it.Ptr)), fs.since))
 			}
 			for _, mine := range fs.items {
+				if mine.Map == "*allocated*" && it.Ptr != nil {
+					alts = append(alts, Ge(App(SInt, "birth", parr(it.Ptr)), u.entry.now))
+					continue
+				}
 				if mine.Map != it.Map {
 					continue
 				}
